@@ -2,8 +2,8 @@
    hatypes.CreateMaps(order).AddMap(..).AddHostnamePathMapping(..) and recorded, per
    MatchFile of MatchFiles(), Method(), Lower() and the Key/Value of Values().
    A case is fine when
-   - the model `rebuild`, for some visiting order of the hosts (Go map iteration, not
-     observable), yields exactly the observed files (method, lower flag, ordered
+   - the model `rebuild_current` (hosts visited in sorted order, as the code does since
+     /repo 5f31221) yields exactly the observed files (method, lower flag, ordered
      key/value list), and
    - the verified checker `layout_ok` accepts the observed files for the rules, which
      by C04_layout_ok_sound settles every request for this rule set, and
@@ -33,24 +33,6 @@ Definition files_of (c : c04case) : list matchfile :=
   map (fun x => match x with (m, l, es) =>
          {| mmeth := m; mlower := l; mentries := map (fun kv => (s2l (fst kv), s2l (snd kv))) es |} end) (cfiles c).
 
-Fixpoint dedup (seen : list str) (l : list str) : list str :=
-  match l with
-  | [] => []
-  | x :: r => if existsb (str_eqb x) seen then dedup seen r else x :: dedup (x :: seen) r
-  end.
-
-Fixpoint inserts (x : str) (l : list str) : list (list str) :=
-  match l with
-  | [] => [[x]]
-  | y :: r => (x :: l) :: map (cons y) (inserts x r)
-  end.
-
-Fixpoint perms (l : list str) : list (list str) :=
-  match l with
-  | [] => [[]]
-  | x :: r => flat_map (inserts x) (perms r)
-  end.
-
 Fixpoint kvs_eqb (a b : list (str * str)) : bool :=
   match a, b with
   | [], [] => true
@@ -69,17 +51,8 @@ Fixpoint files_eqb (a b : list matchfile) : bool :=
   | _, _ => false
   end.
 
-(* existsb that stops at the first hit under vm_compute *)
-Fixpoint any_ho (f : list str -> bool) (l : list (list str)) : bool :=
-  match l with
-  | [] => false
-  | x :: r => match f x with true => true | false => any_ho f r end
-  end.
-
 Definition model_agrees (c : c04case) : bool :=
-  let es := entries_of c in
-  any_ho (fun ho => files_eqb (rebuild (corder c) ho es) (files_of c))
-         (perms (dedup [] (map ehost es))).
+  files_eqb (rebuild_current (corder c) (entries_of c)) (files_of c).
 
 (* the guard of theorem B; the generator stays inside it *)
 Definition in_guard (c : c04case) : bool := forallb wf_fed (feds_of c).
